@@ -663,3 +663,198 @@ func TestSweepStress(t *testing.T) {
 		return nil
 	}, nil)
 }
+
+// ---- expiry in real time ---------------------------------------------------------------------------------
+//
+// Everything above keeps the clock out of the oracle by using TTLs of hours. What that cannot see: a call
+// that is REFUSED (a refresh or a release by an address that does not hold the name, a conflicting
+// registration) or that only reads (a query) and yet moves the expiry of the record, and a successful refresh
+// that does not move it. In the model a refused call leaves the table as it was, expiry included, and a record
+// whose expiry lies hours back with a refresh interval of hours ahead never arises from registrations with
+// hour-sized TTLs. Here a name is registered for two seconds on a table of its own, the call is made 1.5 s
+// later, and the table is swept a good second after the two seconds are over:
+//   - the name must then be gone (a sweep "removes names that have exceeded their TTL") and free for another
+//     address, whatever refused or read-only call was made in between;
+//   - a refresh by the owner at 1.5 s must keep the name through a sweep at 2.3 s.
+// Soundness under load: the harness only sleeps at least as long as needed and judges by clock readings taken
+// around the calls. "Must be gone" is asserted at a moment that is later than registration return + TTL + 1 s (the
+// extra second allows a table that rounds an expiry up to the protocol's granularity of one second); "must still
+// be there" only if the clock read after the query is still below (clock read before the refresh) + TTL, and
+// the outcome of a call that needs a live name only if the clock read after it is below (clock read before the
+// registration) + TTL. A case that comes too late for its window is counted as "late" and not judged.
+
+const expTTL = 2 * time.Second
+
+type expCase struct {
+	Type    int    `json:"type"` // 0 unique, 1 group
+	Op      string `json:"call_at_1.5s"`
+	Variant int    `json:"variant"` // 0: IPv4 addresses, unsecured table; 1: IPv6 owner, secured table
+	Round   int    `json:"round"`
+}
+
+var expOps = []string{"none", "query", "refresh-by-non-owner", "release-by-non-owner", "conflicting-registration", "other-type-registration", "refresh-by-owner"}
+
+func sleepUntil(t time.Time) {
+	for d := time.Until(t); d > 0; d = time.Until(t) {
+		time.Sleep(d)
+	}
+}
+
+func runExpiry(c expCase, late *int32) []vf.Finding {
+	tbl := nbtns.NewNetBIOSNameServer(c.Variant == 1)
+	owner, other := net.IPv4(10, 9, 0, 1).To4(), net.IPv4(10, 9, 0, 2).To4()
+	if c.Variant == 1 {
+		owner = net.ParseIP("fe80::9:1")
+	}
+	typ := nbtns.NameType(c.Type)
+	name := "EXPIRY"
+	tn := []string{"Unique", "Group"}[c.Type]
+	isOwner := func(owners []net.IP, qt nbtns.NameType, err error, ip net.IP, t nbtns.NameType) bool {
+		return err == nil && qt == t && len(owners) == 1 && owners[0].Equal(ip)
+	}
+	t0 := time.Now()
+	if err := tbl.RegisterName(name, typ, owner, expTTL); err != nil {
+		return []vf.Finding{vf.F("RegisterName", "registration-of-absent-name-refused", "Register(%s, %s, %v, %v) on an empty table: %v", name, tn, owner, expTTL, err)}
+	}
+	t1 := time.Now()
+	// a sweep at half-time keeps a live name
+	sleepUntil(t1.Add(500 * time.Millisecond))
+	tbl.CleanExpiredNames()
+	owners, qt, err := tbl.QueryName(name)
+	if time.Now().Before(t0.Add(expTTL)) {
+		if !isOwner(owners, qt, err, owner, typ) {
+			return []vf.Finding{vf.F("CleanExpiredNames", "live-name-removed-by-sweep", "%s name registered for %v, swept %v after the registration: Query = %v, %v, %v", tn, expTTL, time.Since(t0).Round(time.Millisecond), owners, qt, err)}
+		}
+	} else {
+		atomic.AddInt32(late, 1)
+	}
+	sleepUntil(t1.Add(1500 * time.Millisecond))
+	tb := time.Now()
+	var opErr error
+	subject := "CleanExpiredNames"
+	switch c.Op {
+	case "query":
+		subject = "QueryName"
+		owners, qt, opErr = tbl.QueryName(name)
+	case "refresh-by-non-owner":
+		subject = "RefreshName"
+		opErr = tbl.RefreshName(name, other)
+	case "release-by-non-owner":
+		subject = "ReleaseName"
+		opErr = tbl.ReleaseName(name, other)
+	case "conflicting-registration":
+		subject = "RegisterName"
+		opErr = tbl.RegisterName(name, nbtns.Unique, other, time.Hour)
+	case "other-type-registration":
+		subject = "RegisterName"
+		opErr = tbl.RegisterName(name, nbtns.NameType(1-c.Type), other, time.Hour)
+	case "refresh-by-owner":
+		subject = "RefreshName"
+		opErr = tbl.RefreshName(name, owner)
+	}
+	ta := time.Now()
+	certainlyLive := ta.Before(t0.Add(expTTL))
+	if !certainlyLive {
+		atomic.AddInt32(late, 1)
+	}
+	switch c.Op {
+	case "query":
+		if certainlyLive && !isOwner(owners, qt, opErr, owner, typ) {
+			return []vf.Finding{vf.F(subject, "live-name-not-reported", "Query %v after %v registered the %s name for %v: %v, %v, %v", ta.Sub(t0).Round(time.Millisecond), owner, tn, expTTL, owners, qt, opErr)}
+		}
+	case "refresh-by-non-owner", "release-by-non-owner":
+		if opErr == nil {
+			return []vf.Finding{vf.F(subject, "call-by-non-owner-succeeds", "%s of the %s name held by %v, called for %v, returned no error", c.Op, tn, owner, other)}
+		}
+	case "conflicting-registration", "other-type-registration":
+		if opErr == nil {
+			if certainlyLive {
+				return []vf.Finding{vf.F(subject, "conflicting-registration-accepted", "%s for %v accepted %v after %v registered the %s name for %v", c.Op, other, ta.Sub(t0).Round(time.Millisecond), owner, tn, expTTL)}
+			}
+			return nil // too late to know whether the name was still held: nothing further to judge
+		}
+	case "refresh-by-owner":
+		if opErr != nil {
+			if certainlyLive {
+				return []vf.Finding{vf.F(subject, "refresh-by-owner-refused", "Refresh(%s, %v) %v after %v registered the %s name for %v: %v", name, owner, ta.Sub(t0).Round(time.Millisecond), owner, tn, expTTL, opErr)}
+			}
+			return nil
+		}
+		// the refresh moved the expiry to (some moment not before tb) + refresh interval: a sweep after the
+		// old expiry keeps the name
+		sleepUntil(t1.Add(expTTL + 300*time.Millisecond))
+		tbl.CleanExpiredNames()
+		owners, qt, err := tbl.QueryName(name)
+		if now := time.Now(); now.Before(tb.Add(expTTL)) {
+			if !isOwner(owners, qt, err, owner, typ) {
+				return []vf.Finding{vf.F(subject, "refreshed-name-expires-at-old-ttl", "%s name registered for %v, refreshed by its owner after %v, swept %v after the registration (%v after the refresh): Query = %v, %v, %v", tn, expTTL, tb.Sub(t0).Round(time.Millisecond), now.Sub(t0).Round(time.Millisecond), now.Sub(tb).Round(time.Millisecond), owners, qt, err)}
+			}
+		} else {
+			atomic.AddInt32(late, 1)
+		}
+		return nil
+	}
+	// the two seconds (and one more) are over: the sweep removes the name, whatever was called at 1.5 s
+	sleepUntil(t1.Add(expTTL + time.Second + 50*time.Millisecond))
+	tbl.CleanExpiredNames()
+	if owners, qt, err := tbl.QueryName(name); err == nil {
+		kind := "refused-call-extends-lifetime"
+		if c.Op == "none" {
+			kind = "expired-name-kept-by-sweep"
+		} else if c.Op == "query" {
+			kind = "query-extends-lifetime"
+		}
+		return []vf.Finding{vf.F(subject, kind, "%s name registered by %v for %v; call at %v: %s (result: %v); swept %v after the registration: Query still gives %v, %v", tn, owner, expTTL, tb.Sub(t0).Round(time.Millisecond), c.Op, opErr, time.Since(t0).Round(time.Millisecond), owners, qt)}
+	}
+	if err := tbl.RegisterName(name, nbtns.Unique, other, time.Hour); err != nil {
+		return []vf.Finding{vf.F("RegisterName", "name-not-free-after-expiry", "after the %s name of %v expired and was swept (call at 1.5 s: %s), Register(Unique, %v) = %v", tn, owner, c.Op, other, err)}
+	}
+	if owners, qt, err := tbl.QueryName(name); !isOwner(owners, qt, err, other, nbtns.Unique) {
+		return []vf.Finding{vf.F("RegisterName", "name-not-free-after-expiry", "after the %s name of %v expired and was swept (call at 1.5 s: %s) and %v registered it: Query = %v, %v, %v", tn, owner, c.Op, other, owners, qt, err)}
+	}
+	return nil
+}
+
+func TestExpiryRealTime(t *testing.T) {
+	s := vf.Begin(t, P, "expiry-real-time")
+	var cases []expCase
+	for r := 0; r < vf.Size(1, 3); r++ {
+		for typ := 0; typ < 2; typ++ {
+			for _, op := range expOps {
+				for v := 0; v < 2; v++ {
+					cases = append(cases, expCase{typ, op, v, r})
+				}
+			}
+		}
+	}
+	// every case has a table of its own and sleeps most of the time: all of them run at once (sharded runs: the
+	// cases of this shard are computed when they are asked for)
+	var late int32
+	results := make([][]vf.Finding, len(cases))
+	index := map[expCase]int{}
+	_, shards := vf.Shard()
+	if shards <= 1 && !vf.Replaying() {
+		var wg sync.WaitGroup
+		for i, c := range cases {
+			index[c] = i
+			wg.Add(1)
+			go func(i int, c expCase) {
+				defer wg.Done()
+				results[i] = vf.Safe("panic", func() []vf.Finding { return runExpiry(c, &late) })
+			}(i, c)
+		}
+		wg.Wait()
+	}
+	vf.Enum(s, func(yield func(expCase)) {
+		for _, c := range cases {
+			yield(c)
+		}
+	}, func(c expCase) []vf.Finding {
+		if i, ok := index[c]; ok {
+			return results[i]
+		}
+		return runExpiry(c, &late)
+	}, func(c expCase) bool { return c.Op != "none" })
+	s.Count("late:window-missed-not-judged", int64(late))
+	s.Note("TTL %v; %d cases, each on a table of its own", expTTL, len(cases))
+}
